@@ -1,6 +1,7 @@
 package main
 
 import (
+	"reflect"
 	"encoding/json"
 	"fmt"
 	"math/rand"
@@ -54,6 +55,7 @@ func realSQLDecls(a *analysed, root string) (map[string]string, string, outcome)
 			constraints = d.Content
 		}
 	}
+	out["__assembled__"] = t.Text["gen.sql"]
 	return out, constraints, t.Out
 }
 
@@ -116,6 +118,48 @@ func compareSchema(r *rep.Report, a *analysed, reply map[string]any, real map[st
 					r.Disagree(rep.Disagreement{Tie: "c08.foreign-key", Input: in, Model: fk, Impl: constraints})
 				}
 			}
+			// the Go side directly: a field tagged gomacro-sql-foreign:"T" (of a plain integer type)
+			// has exactly one FOREIGN KEY to T's table, with the tagged ON DELETE action
+			sqlNameOf := map[string]string{}
+			for _, tb2 := range reply["tables"].([]any) {
+				if tm2 := tb2.(map[string]any); tm2["create"] != nil {
+					if fl := strings.Fields(sqlTokens(tm2["create"].(string))); len(fl) > 2 {
+						sqlNameOf[tm2["name"].(string)] = fl[2]
+					}
+				}
+			}
+			for _, dd := range a.Env.Decls {
+				if dd.Kind != "struct" || dd.Name != name || dd.PkgPath != a.Env.PkgPath {
+					continue
+				}
+				for _, f := range dd.Fields {
+					tag := reflect.StructTag(f.Tag)
+					target := tag.Get("gomacro-sql-foreign")
+					plain := f.T != nil && (f.T.K == "basic" || f.T.K == "ref" && strings.HasSuffix(f.T.Q, "sql.NullInt64"))
+					if target == "" || !plain || sqlNameOf[target] == "" || !f.GoExported {
+						continue
+					}
+					stmt := "ALTER TABLE " + strings.Fields(want)[2] + " ADD FOREIGN KEY ( " + f.Name + " ) REFERENCES " + sqlNameOf[target]
+					if od := tag.Get("gomacro-sql-on-delete"); od != "" {
+						stmt += " ON DELETE " + od
+					}
+					aliased := false // an alias of the table struct in the analysed file: everything twice (recorded below)
+					seenSrc := map[string]int{}
+					for _, sq := range a.Env.Source {
+						seenSrc[sq.Q]++
+						if seenSrc[sq.Q] > 1 {
+							aliased = true
+						}
+					}
+					if n := strings.Count(ctoks+" ", sqlTokens(stmt)+" ;"); n != 1 && !(aliased && n == 2) {
+						shape := ""
+						if target == name {
+							shape = ":self-reference"
+						}
+						r.Fail(rep.Failure{Signature: "c08:foreign-key-of-tagged-field" + shape, What: fmt.Sprintf("field %s.%s is tagged gomacro-sql-foreign:%q: %d statements `%s` in the schema, expected exactly one", name, f.Name, target, n, stmt), Input: in, Observed: constraints})
+					}
+				}
+			}
 			// exactly one FK per foreign-key field
 			nReal := strings.Count(ctoks, "ALTER TABLE "+strings.Fields(want)[2]+" ADD FOREIGN KEY")
 			if nReal != len(strsOf(tm["fks"])) {
@@ -148,6 +192,11 @@ func compareSchema(r *rep.Report, a *analysed, reply map[string]any, real map[st
 					r.Disagree(rep.Disagreement{Tie: "c08.json-check-constraint", Input: in, Model: jm["check"]})
 				}
 				continue
+			}
+			// the assembled script wires the column to its validator (declarations are merged by ID:
+			// a constraint whose ID collides with another one is dropped)
+			if chk, _ := jm["check"].(string); chk != "" && !strings.Contains(sqlTokens(real["__assembled__"]), sqlTokens(chk)) {
+				r.Fail(rep.Failure{Signature: "c04:json-column-without-check-constraint", What: "table " + name + ": the assembled script does not contain `" + strings.TrimSpace(chk) + "`: any document is accepted in that column", Input: in})
 			}
 			for _, f := range jm["funcs"].([]any) {
 				fm := f.(map[string]any)
